@@ -694,7 +694,7 @@ func (e *Enc) typeAssert(fr *Frame, x *ssa.TypeAssert, st *State, reach string) 
 	var ok string
 	var v Val
 	if isIface(x.AssertedType) {
-		okc := e.fresh("implok", BoolS())
+		okc := e.implTerm(x.AssertedType, tag)
 		e.assume(imp(okc, not(eq(tag, c64(0)))))
 		if it, isI := x.AssertedType.Underlying().(*types.Interface); isI && it.NumMethods() == 0 {
 			e.assume(imp(not(eq(tag, c64(0))), okc))
@@ -747,4 +747,15 @@ func (e *Enc) allocNote(fr *Frame, st *State, reach string, x ssa.Instruction, l
 	if e.allocHook != nil {
 		e.allocHook(fr, st, reach, x, ln, et)
 	}
+}
+
+// implTerm: whether the dynamic type identified by tag implements interface type it (an uninterpreted function of the tag,
+// so repeated assertions on the same value agree).
+func (e *Enc) implTerm(it types.Type, tag string) string {
+	fn := "IMPL!" + symSafe(typeKeyFull(it))
+	if !e.declSeen[fn] {
+		e.declSeen[fn] = true
+		e.decl = append(e.decl, "(declare-fun "+fn+" ((_ BitVec 64)) Bool)")
+	}
+	return "(" + fn + " " + tag + ")"
 }
